@@ -11,6 +11,7 @@ import (
 
 	"github.com/taskctl/taskctl/pkg/scheduler"
 	"github.com/taskctl/taskctl/pkg/task"
+	vsync "github.com/taskctl/taskctl/pkg/verifvsync"
 )
 
 // SCHED engine: the real scheduler (Schedule loop, checkStatus, runStage,
@@ -141,10 +142,14 @@ var (
 	uniqName = map[*scheduler.Stage]string{}
 )
 
+// gidStage: goroutine id of a stage goroutine -> unique stage name (identity of preemption parks)
+var gidStage sync.Map
+
 func resetUniq() {
 	uniqMu.Lock()
 	uniqName = map[*scheduler.Stage]string{}
 	uniqMu.Unlock()
+	gidStage = sync.Map{}
 }
 
 func uniqOf(st *scheduler.Stage) string {
@@ -168,6 +173,11 @@ type SchedProfile struct {
 	WMidpass    int // weight of "a running task completes in the middle of a scheduling pass"
 	CancelAt    int // >=0: fire the first Cancel exactly at this step; -1: weighted
 	CancelAfter bool
+	// PreemptPct: percent of the releases after which the released stage goroutine is taken off
+	// the processor again before one of its next PreemptDepth statements (e.g. between the two
+	// status stores that follow the return of its task)
+	PreemptPct   int
+	PreemptDepth int
 }
 
 type schedEngine struct {
@@ -475,8 +485,23 @@ func (e *schedEngine) inflightNames() []string {
 
 // barrier: C04. Advance simulated time until every eligible stage has been
 // started; nothing is completed meanwhile.
+// resumePreempted lets the goroutines the controller holds at a preemption point go on (before
+// anything is measured against the model: the statuses they are about to store are part of it).
+func (e *schedEngine) resumePreempted() {
+	c := e.c
+	for {
+		ps := c.ParkedOf("preempt")
+		if len(ps) == 0 {
+			return
+		}
+		c.Release(ps[0], Action{Kind: "go"})
+		c.Quiesce()
+	}
+}
+
 func (e *schedEngine) barrier() bool {
 	c := e.c
+	e.resumePreempted()
 	if e.cancelSeen || e.model.Ambiguous || e.g.HasMissingCond() {
 		return true
 	}
@@ -536,6 +561,7 @@ func RunSchedWorld(c *Ctl, prof *SchedProfile, g *GraphSpec, res *RunResult) {
 		name := uniqOf(st)
 		switch kind {
 		case "stage-start":
+			gidStage.Store(curGID(), name)
 			c.Yield("stage-start", name, nil)
 		case "sched-visit":
 			// inactive unless the controller armed a mid-pass park; only visits of the root
@@ -548,6 +574,25 @@ func RunSchedWorld(c *Ctl, prof *SchedProfile, g *GraphSpec, res *RunResult) {
 		}
 	}
 	defer func() { scheduler.VerifYield = nil }()
+	if prof.PreemptPct > 0 && stmtPoints > 0 {
+		var occ sync.Map
+		vsync.Arm(0, 0)
+		vsync.ArmStmt(0, 0)
+		vsync.PreemptHook.Store(func(name string) {
+			who := "-"
+			if v, ok := gidStage.Load(curGID()); ok {
+				who = v.(string)
+			}
+			key := who + "/" + name
+			n, _ := occ.LoadOrStore(key, new(int32))
+			c.Yield("preempt", fmt.Sprintf("%s#%d", key, atomic.AddInt32(n.(*int32), 1)), nil)
+		})
+		defer func() {
+			vsync.Arm(0, 0)
+			vsync.ArmStmt(0, 0)
+			vsync.PreemptHook.Store((func(string))(nil))
+		}()
+	}
 
 	scheduler.VerifPause = simPause
 	defer func() { scheduler.VerifPause = 0 }()
@@ -588,7 +633,10 @@ func RunSchedWorld(c *Ctl, prof *SchedProfile, g *GraphSpec, res *RunResult) {
 		if e.returned {
 			break
 		}
-		parks := c.ParkedOf("stage-start", "run")
+		if vsync.ArmedStmt() > 0 {
+			vsync.ArmStmt(0, 0)
+		}
+		parks := c.ParkedOf("stage-start", "run", "preempt")
 		faults := c.ParkedOf("fault-cancel")
 		if prof.CancelAt >= 0 && c.Steps == prof.CancelAt && len(faults) > 0 {
 			e.fireFault(faults[0], len(parks))
@@ -630,7 +678,7 @@ func RunSchedWorld(c *Ctl, prof *SchedProfile, g *GraphSpec, res *RunResult) {
 			if !e.barrier() {
 				break
 			}
-			parks = c.ParkedOf("stage-start", "run")
+			parks = c.ParkedOf("stage-start", "run", "preempt")
 		}
 		w := make([]int, 0, len(parks)+3)
 		for range parks {
@@ -669,6 +717,10 @@ func RunSchedWorld(c *Ctl, prof *SchedProfile, g *GraphSpec, res *RunResult) {
 				e.settle()
 				c.holdBatch = false
 			} else {
+				if prof.PreemptPct > 0 && stmtPoints > 0 && parks[k].Kind == "run" && c.Ch.Bool(prof.PreemptPct, 100, "preempt") {
+					vsync.ArmStmt(1+c.Ch.Choose(prof.PreemptDepth, "preempt-stmt-depth"), parks[k].GID)
+					c.Count("preemptions_armed")
+				}
 				c.Release(parks[k], Action{Kind: "go"})
 			}
 		case k == len(parks):
